@@ -65,12 +65,16 @@ def tx_call(name, params):
 def cli_case(rng, idx):
     k = rng.randint(0, 9)
     sents = []
+    # sentence numbers as they come in a sample, a shuffled or a glued treebank: unique but not ascending, or ascending
+    sids = list(range(1, k + 1))
+    if rng.random() < 0.4:
+        sids = rng.sample(range(1, 60), k)
     for i in range(k):
         t = treegen.gen_tree(rng, treegen.Cfg(n_min=1, n_max=6, disc=False, none_fields=False,
                                               words=["a", "b", "cc", "Haus", "x", "twentythree_characters_", "twentyfour_characters___",
                                                      "Donaudampfschifffahrtsgesellschaft"], punct_words=[",", "."],
                                               labels=treegen.PLAIN_LABELS, edges=["HD", "--", "SB"]))
-        t.data['sid'] = i + 1
+        t.data['sid'] = sids[i]
         for x in trees.terminals(t):
             if rng.random() < 0.1:
                 x.data['morph'] = rng.choice(["Nom.Sg.Masc.Pos", "Comp.Nom.Pl.Masc", "Comp.Nom.Sg.Masc.x"])     # 15, 16, 18 characters
